@@ -8,7 +8,7 @@ sel = sys.argv[1:]
 names = sorted(d for d in os.listdir(f"{V}/seeded") if os.path.exists(f"{V}/seeded/{d}/patch.diff"))
 if sel:
     names = [n for n in names if any(n.startswith(s) for s in sel)]
-res_path = f"{V}/seeded/RESULTS.json"
+res_path = os.environ.get("SWEEP_OUT") or f"{V}/seeded/RESULTS.json"  # SWEEP_OUT: robustness sweeps at other seeds (meta.json untouched)
 results = json.load(open(res_path)) if os.path.exists(res_path) else {}
 head = subprocess.check_output(["git", "-C", "/repo", "log", "--format=%h", "-1"], text=True).strip()
 for n in names:
@@ -20,10 +20,11 @@ for n in names:
     line = out.splitlines()[-1] if out else "NO OUTPUT"
     verdict = line.split()[0]
     sigs = [w.split("=", 1)[1] for w in line.split() if w.startswith("signature=")]
-    results[n] = {"property": prop, "verdict": verdict, "signatures": sigs, "tier": os.environ.get("TIER", "quick"),
+    results[n] = {"property": prop, "verdict": verdict, "signatures": sigs, "tier": os.environ.get("TIER", "quick"), "seed": int(os.environ.get("VERIF_SEED", "0")),
                   "repo_head": head, "wall_s": round(time.time() - t0)}
     meta["detected_by"] = {"check": f"./check {prop} --tier {os.environ.get('TIER', 'quick')}", "verdict": verdict, "signatures": sigs,
                            "repo_head": head}
-    json.dump(meta, open(f"{V}/seeded/{n}/meta.json", "w"), indent=1)
+    if not os.environ.get("SWEEP_OUT"):
+        json.dump(meta, open(f"{V}/seeded/{n}/meta.json", "w"), indent=1)
     json.dump(results, open(res_path, "w"), indent=1, sort_keys=True)
     print(f"{verdict:8s} {n}  {' '.join(sigs)[:200]}  ({results[n]['wall_s']} s)", flush=True)
